@@ -1187,18 +1187,7 @@ def linear_node_rounding(facet, case, kind, msg, data):
     return facet == "node_exact" and kind == "node-linear" and case.get("method") == "linear"
 
 
-def stale_after_inplace_conversion(facet, case, kind, msg, data):
-    """The lazy interpolator copies the values of the points when it is first used: `ephem.form = ...` /
-    `ephem.frame = ...` after a first interpolation is not seen by interpolate() (old numbers, new labels)."""
-    if facet != "convert_in_place" or kind not in ("stale-table", "lagrange-value", "linear-value"):
-        return False
-    ops = [o["op"] for o in case["ops"]]
-    sets = [j for j, o in enumerate(ops) if o in ("set_form", "set_frame")]
-    return bool(sets) and any(o in ("interp", "node") for o in ops[: sets[-1]])
-
-
-FINDINGS = {"C09/linear-node-rounding": linear_node_rounding,
-            "C09/stale-after-inplace-conversion": stale_after_inplace_conversion}
+FINDINGS = {"C09/linear-node-rounding": linear_node_rounding}
 
 FACETS = [
     Facet("node_exact", node_case, check_node_exact, setup=_setup,
